@@ -103,7 +103,11 @@ var symbols = []string{"a", "é", "😀", "\r", "\n"}
 
 var tokens = []string{"echo", "put", "e", "$", "$paths", "$pa", "$!", " ", " ", "\n", "\n", "\r\n", "\r\n", "\r",
 	"é", "😀", "世", "[", "]", "{", "}", "(", ")", "'", "\"", "|", "var x = ", "fn f { }", "#c", ";", "~", "*", "a", "ad",
-	"adir/", "&", ">", "if", "use ", "x", "\t", "\\", "^", "=", "nop "}
+	"adir/", "&", ">", "if", "use ", "x", "\t", "\\", "^", "=", "nop ",
+	// double-quoted strings with malformed escapes: several parse errors in one string, some
+	// with the same start and different ends (incomplete \x or octal escape directly followed by
+	// an out-of-range octal escape) — diagnostics must carry each error's own range
+	"\"\\x\\400\"", "\"a\\4\\777 b\"", "\\x", "\\400", "\\4", "\\777", "\\u12", "\\c", "\"\\x4\\400\\c\""}
 
 var uris = []string{"file:///a.elv", "file:///a.elv", "file:///b.elv", "", "untitled:Ü-1"}
 
